@@ -2,6 +2,7 @@ package operations
 
 import (
 	"archive/tar"
+	"strconv"
 
 	models "github.com/pojntfx/stfs/internal/db/sqlite/models/metadata"
 	vm "github.com/pojntfx/stfs/internal/verifmodel"
@@ -50,7 +51,14 @@ func VerifNewEnv(pipes config.PipeConfig, readCrypto, writeCrypto config.CryptoC
 // to the ghost tape as its own archive and the row points at it (this is what C04 establishes).
 func (e *VerifEnv) AddEntry(name string, typeflag byte, size int64, deleted bool, linkname string) *models.Header {
 	start := e.Tape.Len
-	hdr := &tar.Header{Typeflag: typeflag, Name: name, Linkname: linkname, Size: size, Mode: 0o644, Format: tar.FormatPAX, PAXRecords: map[string]string{}}
+	// rows of non-empty regular files carry the uncompressed-size record the writer adds (reachable-state invariant)
+	pax := "{}"
+	paxMap := map[string]string{}
+	if typeflag == tar.TypeReg && size > 0 {
+		paxMap["STFS.UncompressedSize"] = strconv.Itoa(int(size))
+		pax = "{\"STFS.UncompressedSize\":\"" + strconv.Itoa(int(size)) + "\"}"
+	}
+	hdr := &tar.Header{Typeflag: typeflag, Name: name, Linkname: linkname, Size: size, Mode: 0o644, Format: tar.FormatPAX, PAXRecords: paxMap}
 	var data []byte
 	if typeflag == tar.TypeReg && size > 0 {
 		data = make([]byte, size)
@@ -64,7 +72,7 @@ func (e *VerifEnv) AddEntry(name string, typeflag byte, size int64, deleted bool
 	rs := int64(e.RS)
 	row := &models.Header{
 		Record: blocks / rs, Block: blocks % rs, Lastknownrecord: blocks / rs, Lastknownblock: blocks % rs,
-		Typeflag: int64(typeflag), Name: name, Linkname: linkname, Size: size, Mode: 0o644, Paxrecords: "{}", Format: int64(tar.FormatPAX),
+		Typeflag: int64(typeflag), Name: name, Linkname: linkname, Size: size, Mode: 0o644, Paxrecords: pax, Format: int64(tar.FormatPAX),
 	}
 	if deleted {
 		row.Deleted = 1
